@@ -129,6 +129,9 @@ def run_property(prop: str, rules: List[RuleSpec], ctx, tier: str, explanation: 
 
     vdir = VERIF / "evidence" / "violations"
     rc = 0
+    if vdir.is_dir():
+        for old in vdir.glob(f"{prop}.*.json"):      # replay files of earlier runs of this property
+            old.unlink()
     if viol:
         vdir.mkdir(parents=True, exist_ok=True)
         rc = 1
